@@ -47,6 +47,9 @@ func UnmarshalTWKBIDList(twkb []byte) ([]int64, bool, error) {
 	if err != nil {
 		return nil, false, p.annotateError(fmt.Errorf("ID list size uvarint malformed: %w", err))
 	}
+	if err := p.checkCount(numItems, 1, "ID"); err != nil {
+		return nil, false, p.annotateError(err)
+	}
 
 	if err := p.parseIDList(int(numItems)); err != nil {
 		return nil, false, p.annotateError(err)
@@ -447,6 +450,9 @@ func (p *twkbParser) nextPolygon() (Polygon, error) {
 	if err != nil {
 		return Polygon{}, fmt.Errorf("num rings varint malformed: %w", err)
 	}
+	if err := p.checkCount(numRings, 1, "ring"); err != nil {
+		return Polygon{}, err
+	}
 
 	var rings []LineString
 	for r := uint64(0); r < numRings; r++ {
@@ -502,6 +508,9 @@ func (p *twkbParser) nextMultiPoint() (MultiPoint, error) {
 	if err != nil {
 		return MultiPoint{}, fmt.Errorf("num points varint malformed: %w", err)
 	}
+	if err := p.checkCount(numPoints, p.dimensions, "point"); err != nil {
+		return MultiPoint{}, err
+	}
 	if p.hasIDs {
 		if err := p.parseIDList(int(numPoints)); err != nil {
 			return MultiPoint{}, err
@@ -529,6 +538,9 @@ func (p *twkbParser) nextMultiLineString() (MultiLineString, error) {
 	numLineStrings, err := p.parseUnsignedVarint()
 	if err != nil {
 		return MultiLineString{}, fmt.Errorf("num linestrings varint malformed: %w", err)
+	}
+	if err := p.checkCount(numLineStrings, 1, "linestring"); err != nil {
+		return MultiLineString{}, err
 	}
 	if p.hasIDs {
 		if err := p.parseIDList(int(numLineStrings)); err != nil {
@@ -558,6 +570,9 @@ func (p *twkbParser) nextMultiPolygon() (MultiPolygon, error) {
 	if err != nil {
 		return MultiPolygon{}, fmt.Errorf("num polygons varint malformed: %w", err)
 	}
+	if err := p.checkCount(numPolygons, 1, "polygon"); err != nil {
+		return MultiPolygon{}, err
+	}
 	if p.hasIDs {
 		if err := p.parseIDList(int(numPolygons)); err != nil {
 			return MultiPolygon{}, err
@@ -586,6 +601,9 @@ func (p *twkbParser) nextGeometryCollection() (GeometryCollection, error) {
 	if err != nil {
 		return GeometryCollection{}, fmt.Errorf("num polygons varint malformed: %w", err)
 	}
+	if err := p.checkCount(numGeoms, 2, "geometry"); err != nil {
+		return GeometryCollection{}, err
+	}
 	if p.hasIDs {
 		if err := p.parseIDList(int(numGeoms)); err != nil {
 			return GeometryCollection{}, err
@@ -613,6 +631,19 @@ func (p *twkbParser) nextGeometryCollection() (GeometryCollection, error) {
 	return NewGeometryCollection(geoms), nil
 }
 
+// checkCount checks that n elements, each of which occupies at least
+// minElemSize bytes, could fit in the remaining input. It is used to validate
+// counts read from the input before they are used to size allocations or
+// converted to int, so that a corrupt count cannot cause a huge allocation or
+// a makeslice panic.
+func (p *twkbParser) checkCount(n uint64, minElemSize int, what string) error {
+	remaining := uint64(len(p.twkb) - p.pos)
+	if n > remaining || n*uint64(minElemSize) > remaining {
+		return fmt.Errorf("%s count %d exceeds remaining input (%d bytes)", what, n, remaining)
+	}
+	return nil
+}
+
 // Read a number of points then convert that many points from int to float coords.
 // Utilise and update the running memory of the previous reference point.
 // Return the slice of coords, the number of points, and any error.
@@ -620,6 +651,9 @@ func (p *twkbParser) parsePointCountAndArray() ([]float64, int, error) {
 	numPoints, err := p.parseUnsignedVarint()
 	if err != nil {
 		return nil, 0, fmt.Errorf("num points varint malformed: %w", err)
+	}
+	if err := p.checkCount(numPoints, p.dimensions, "point"); err != nil {
+		return nil, 0, err
 	}
 
 	coords, err := p.parsePointArray(int(numPoints))
@@ -648,6 +682,12 @@ func (p *twkbParser) parsePointArray(numPoints int) ([]float64, error) {
 }
 
 func (p *twkbParser) parseIDList(numIDs int) error {
+	if numIDs < 0 {
+		return fmt.Errorf("ID count %d is invalid", numIDs)
+	}
+	if err := p.checkCount(uint64(numIDs), 1, "ID"); err != nil {
+		return err
+	}
 	p.idList = make([]int64, numIDs)
 	for i := 0; i < numIDs; i++ {
 		id, err := p.parseSignedVarint()
